@@ -30,7 +30,7 @@ RULE = (
 STATE_MEASURE = "(operation kind sequence, fault site) and heap shapes (who was copied from whom, cov/maneuver presence)"
 PROBES = [
     "fault_fired_natural", "fault_fired_injected", "atomic_failure_checked", "drag_cov_with_state",
-    "mutation_with_relatives", "pickle_across_nodes", "pickle_with_cov", "access_checked", "foreign_name_rejected", "still_usable_after_failure", "infos_checked", "form_call_checked", "cov_built_from_cov", "heap_object_registered_as_frame", "converted_into_frame_of_heap_object", "copy_module_used", "infos_result_changed_by_caller", "local_covariance_against_own_axes", "date_assigned", "hill_frame_state_pickled",
+    "mutation_with_relatives", "pickle_across_nodes", "pickle_with_cov", "access_checked", "foreign_name_rejected", "still_usable_after_failure", "infos_checked", "form_call_checked", "cov_built_from_cov", "heap_object_registered_as_frame", "converted_into_frame_of_heap_object", "copy_module_used", "pickle_out_of_band", "infos_result_changed_by_caller", "local_covariance_against_own_axes", "date_assigned", "hill_frame_state_pickled",
 ]
 REAL_VS_STUB = "real: StateVector/Orbit/Cov/forms/frames/propagators, pickle; stub: none (the injected faults are raising wrappers around real callees in the node's private package copy); model: snapshots (bytes, labels, identities) of every heap object before each operation"
 ASSUMPTIONS = ["asynchronous exceptions (KeyboardInterrupt/MemoryError at an arbitrary bytecode) are not injected: the statement speaks of a form or frame change that fails", "mutating the inside of a Man object shared by a copy and its source is not exercised (list-level independence only)"]
@@ -118,7 +118,7 @@ def gen_plan(rng, tier, i):
     child = random.Random("c15-child:" + repr([o_["op"] for o_ in ops]) + repr(objs[0].get("cov_seed")))  # added after the first version: own generator, earlier plans keep their draws
     for o_ in ops:
         if o_["op"] == "pickle" and child.random() < 0.4:
-            o_["where"] = child.choice(["copy", "deepcopy"])
+            o_["where"] = child.choice(["copy", "deepcopy", "oob"])
     if child.random() < 0.07:
         # biased history: an object of the heap gives its name to a frame (QSW / TNW / plain), then another object is converted into
         # that frame (the combination is rare in the unbiased plans)
@@ -141,7 +141,7 @@ def gen_plan(rng, tier, i):
     if child.random() < 0.06 and len(ops) < 6:
         ops.insert(child.randint(0, len(ops)), {"op": "hill_pickle", "obj": 0, "first": child.choice(["QSW", "TNW"]), "where": child.choice(["same", "other"])})
     if child.random() < 0.15 and len(ops) < 6:  # (histories of length <= 6, as the quantifier says)
-        ops.insert(child.randint(0, len(ops)), {"op": "pickle", "obj": child.randrange(8), "where": child.choice(["copy", "deepcopy"])})
+        ops.insert(child.randint(0, len(ops)), {"op": "pickle", "obj": child.randrange(8), "where": child.choice(["copy", "deepcopy", "oob"])})
     return {"knobs": {"objects": objs, "with_eop": False}, "ops": ops}
 
 
@@ -903,6 +903,23 @@ class Heap:
             if snap(o) != before[j]:
                 ctx.violate("no-aliasing", {"kind": "shared_metadata_dict", "via": "copy." + where_}, f"{where}: a name given to the result of copy.{where_}(obj) shows in the object it was copied from")
                 return
+            if self.ctx.violation is None:
+                self.objs.append(new)
+                self.rel.append(j)
+                self.group.append(max(self.group) + 1)
+            return
+        if where_ == "oob":
+            # pickle protocol 5 with out-of-band buffers (PEP 574: what multiprocessing / dask use to ship arrays without copies):
+            # the unpickled object is still a copy
+            ctx.probe("pickle_out_of_band")
+            try:
+                bufs = []
+                data5 = pickle.dumps(o, protocol=5, buffer_callback=bufs.append)
+                new = pickle.loads(data5, buffers=bufs)
+            except Exception as e:  # noqa
+                ctx.violate("round-trip", {"kind": "pickle_fails", "stage": "out_of_band"}, f"{where}: pickling with out-of-band buffers raised {type(e).__name__}: {e}")
+                return
+            self.check_unpickled(j, new, before, where + " (out-of-band buffers)", self.node)
             if self.ctx.violation is None:
                 self.objs.append(new)
                 self.rel.append(j)
